@@ -2230,6 +2230,125 @@ fn colliding_cfg_history(r: &mut Rng, w: &World) -> History {
     }
 }
 
+// ---------------------------------------------------------------------------------------------------------
+// per-thread state (Model/C05Thread.v): AUTOMATON_BUILDERS through FstDictionary::fuzzy_match, BUFFERS through
+// WithinEditDistance (reached by the public SimilarToPhrase)
+/// `fuzzy_match(word, d, _)` of the curated FST dictionary: (largest edit distance among the results — the distance of
+/// the builder that served the request, for a word with neighbours at every distance —, canonical result list)
+fn fuzzy_served(word: &[char], d: u8) -> (String, Vec<(String, u8)>) {
+    let dict = FstDictionary::curated();
+    let mut res: Vec<(String, u8)> = dict.fuzzy_match(word, d, 1_000_000).into_iter().map(|m| (m.word.iter().collect(), m.edit_distance)).collect();
+    res.sort();
+    let served = res.iter().map(|x| x.1).max().map(|m| m.to_string()).unwrap_or_else(|| "none".into());
+    (served, res)
+}
+/// the edit distance WithinEditDistance computes between two words that differ (ignoring case): the least k for which
+/// the one-word phrase pattern with tolerance k matches (255 = not within 254)
+fn wed_distance(source: &str, target: &str) -> u8 {
+    use harper_core::patterns::SimilarToPhrase;
+    let src: Vec<char> = source.chars().collect();
+    let toks = vec![Token::new(Span::new(0, src.len()), harper_core::TokenKind::blank_word())];
+    for k in 0..=254u8 {
+        if SimilarToPhrase::from_phrase(target, k).matches(&toks, &src) > 0 {
+            return k;
+        }
+    }
+    255
+}
+fn run_tstate(rep: &mut Report, dists: &[u8], pairs: &[(String, String)]) {
+    let input = json!({"kind": "tstate", "dists": dists, "pairs": pairs.iter().map(|(a, b)| json!([a, b])).collect::<Vec<_>>()});
+    let word: Vec<char> = "cat".chars().collect();
+    // ONE freshly spawned thread executes the whole sequence (its builders grow, its buffers get dirty) ...
+    let (d2, p2, w2) = (dists.to_vec(), pairs.to_vec(), word.clone());
+    let warm = std::thread::spawn(move || guarded(|| (d2.iter().map(|d| fuzzy_served(&w2, *d)).collect::<Vec<_>>(), p2.iter().map(|(a, b)| wed_distance(a, b)).collect::<Vec<_>>()))).join();
+    let Ok(Ok((fz, eds))) = warm else {
+        rep.fail("tstate_panic", format!("a sequence of fuzzy_match / WithinEditDistance calls panicked on a fresh thread at {}", last_panic_location()), input);
+        return;
+    };
+    rep.case("TN", "ok");
+    for (i, d) in dists.iter().enumerate() {
+        rep.eval();
+        rep.case(&format!("TF {d}"), &fz[i].0);
+        rep.count(&format!("tstate:fuzzy_match(max_distance={d})"));
+        rep.nontrivial(&("tf", i, dists[..=i].to_vec()));
+        // ... and every request is repeated on a thread of its own (the model's `tfresh`)
+        let (w3, d3) = (word.clone(), *d);
+        let fresh = std::thread::spawn(move || guarded(|| fuzzy_served(&w3, d3))).join();
+        match fresh {
+            Ok(Ok(f)) if f.1 == fz[i].1 => {}
+            Ok(Ok(f)) => {
+                let k = f.1.iter().zip(fz[i].1.iter()).position(|(a, b)| a != b).unwrap_or(f.1.len().min(fz[i].1.len()));
+                rep.fail("thread_dependent_fuzzy", format!("fuzzy_match(\"cat\", {d}, _) after the requests {:?} on the same thread returns {} results (largest distance {}), on a fresh thread {} (largest distance {}); first difference at {k}: {:?} vs {:?}", &dists[..i], fz[i].1.len(), fz[i].0, f.1.len(), f.0, fz[i].1.get(k), f.1.get(k)), input.clone());
+            }
+            _ => rep.count("tstate:fresh_thread_panicked"),
+        }
+    }
+    rep.monitor("thread_state:fuzzy_requests_compared_with_a_fresh_thread", dists.len() as u64);
+    for (i, (a, b)) in pairs.iter().enumerate() {
+        if a.to_lowercase() == b.to_lowercase() {
+            continue;
+        }
+        rep.eval();
+        let (la, lb): (Vec<char>, Vec<char>) = (a.to_lowercase().chars().collect(), b.to_lowercase().chars().collect());
+        rep.case(&format!("TD|{}|{}", cps(&la), cps(&lb)), &eds[i].to_string());
+        rep.count(&format!("tstate:edit_distance(len {}x{})", if la.len() > 254 { ">254".to_string() } else { format!("{}", (la.len() + 7) / 8 * 8) }, if lb.len() > 254 { ">254".to_string() } else { format!("{}", (lb.len() + 7) / 8 * 8) }));
+        rep.nontrivial(&("td", a.clone(), b.clone(), i));
+        let (a3, b3) = (a.clone(), b.clone());
+        match std::thread::spawn(move || guarded(|| wed_distance(&a3, &b3))).join() {
+            Ok(Ok(f)) if f == eds[i] => {}
+            Ok(Ok(f)) => rep.fail("thread_dependent_edit_distance", format!("WithinEditDistance sees distance {} between {a:?} and {b:?} on a thread that compared {:?} before, {f} on a fresh thread", eds[i], &pairs[..i]), input.clone()),
+            _ => rep.count("tstate:fresh_thread_panicked"),
+        }
+    }
+    rep.monitor("thread_state:edit_distances_compared_with_a_fresh_thread", pairs.len() as u64);
+}
+fn gen_tstate(r: &mut Rng, thorough: bool) -> (Vec<u8>, Vec<(String, String)>) {
+    let n = r.range(3, 7);
+    let dists: Vec<u8> = (0..n).map(|_| if thorough && r.chance(1, 8) { 4 } else { r.below(4) as u8 }).collect();
+    fn letters(r: &mut Rng, n: usize) -> String {
+        let mut s = String::new();
+        for _ in 0..n {
+            let k = if r.chance(1, 2) { 3 } else { 26 };
+            let c = (b'a' + r.below(k) as u8) as char;
+            s.push(if r.chance(1, 12) { c.to_ascii_uppercase() } else { c });
+        }
+        s
+    }
+    let mut pairs = vec![];
+    for _ in 0..r.range(6, 14) {
+        // lengths jump up and down so that the buffers a call finds are longer / shorter than it needs
+        let la = if r.chance(1, 6) { r.range(20, 60) } else { r.range(1, 12) };
+        let a = letters(r, la);
+        let b = if r.chance(1, 2) {
+            // a few edits of a
+            let mut v: Vec<char> = a.chars().collect();
+            for _ in 0..r.range(1, 4) {
+                let i = r.below(v.len().max(1));
+                match r.below(3) {
+                    0 if !v.is_empty() => { v.remove(i.min(v.len() - 1)); }
+                    1 => v.insert(i.min(v.len()), (b'a' + r.below(26) as u8) as char),
+                    _ if !v.is_empty() => { let j = i.min(v.len() - 1); v[j] = (b'a' + r.below(26) as u8) as char; }
+                    _ => {}
+                }
+            }
+            if v.is_empty() { "z".to_string() } else { v.into_iter().collect() }
+        } else {
+            let lb = r.range(1, 14);
+            letters(r, lb)
+        };
+        pairs.push((a, b));
+    }
+    if thorough && r.chance(1, 3) {
+        // beyond the u8 rows: edit_distance_long, which leaves BUFFERS alone
+        let a: String = letters(r, 260).to_lowercase();
+        let mut b = a.clone();
+        b.replace_range(100..101, if &a[100..101] == "q" { "r" } else { "q" });
+        b.push('s');
+        pairs.insert(r.below(pairs.len()), (a, b));
+    }
+    (dists, pairs)
+}
+
 fn run_input(w: &mut World, ew: &mut EntryWorld, rep: &mut Report, v: &Value, out_dir: &str) {
     match v["kind"].as_str() {
         Some("entry") => run_entry(w, ew, rep, &EHistory::from_json(v)),
@@ -2244,6 +2363,11 @@ fn run_input(w: &mut World, ew: &mut EntryWorld, rep: &mut Report, v: &Value, ou
             } else {
                 run_core(w, rep, &h);
             }
+        }
+        Some("tstate") => {
+            let dists: Vec<u8> = v["dists"].as_array().map(|a| a.iter().filter_map(|x| x.as_u64().map(|x| x as u8)).collect()).unwrap_or_default();
+            let pairs: Vec<(String, String)> = v["pairs"].as_array().map(|a| a.iter().filter_map(|p| Some((p[0].as_str()?.to_string(), p[1].as_str()?.to_string()))).collect()).unwrap_or_default();
+            run_tstate(rep, &dists, &pairs)
         }
         Some("threads") => check_threads(rep, &Batch::from_json(v)),
         Some("procs") => check_processes(rep, &Batch::from_json(v), out_dir),
@@ -2297,6 +2421,10 @@ fn main() {
         // and are replayed by the model through the LRU simulation
         let h = eviction_history(&mut r, 400, 40);
         run_core(&mut w, &mut rep, &h);
+    }
+    for _ in 0..args.scale(4, 40) {
+        let (dists, pairs) = gen_tstate(&mut r, args.thorough());
+        run_tstate(&mut rep, &dists, &pairs);
     }
     for i in 0..args.scale(2, 12) {
         let b = gen_batch(&mut r, args.scale(12, 40), i % 2 == 1);
